@@ -137,9 +137,13 @@ def plan_calibration_case(rec, seedt):
     desc = {"kind": "plan-calibration", "seed": list(seedt), "N": N, "psll": round(psll, 2),
             "sched": sched, "A": A, "fs": fs}
     rec.case(desc, nontrivial=True)
+    # plan options: also plans that start at a fractional bin number and plans with long
+    # full-record plateaus (few averages asked for)
+    pkw = dict(Jdes=int(rng.choice([30, 30, 200])), Kdes=int(rng.choice([10, 10, 3, 1])),
+               order=int(rng.choice([0, 0, 1])), bmin=float(rng.choice([1.0, 1.0, 2.5, 3.3, 7.7])))
+    desc["plan_options"] = dict(pkw)
     try:
-        an0 = SpectrumAnalyzer(np.zeros(N), fs, win="kaiser", psll=psll, scheduler=sched,
-                               Jdes=30, Kdes=10, order=0)
+        an0 = SpectrumAnalyzer(np.zeros(N), fs, win="kaiser", psll=psll, scheduler=sched, **pkw)
         Ls = sorted(set(int(v) for v in an0.plan()["L"]))
     except ValueError as e:
         rec.blocked(f"plan rejected: {e}")
@@ -160,7 +164,7 @@ def plan_calibration_case(rec, seedt):
             x = A * np.sin(2 * math.pi * fj / fs * t + rng.uniform(0, 6.28))
             tol = 4 * 10 ** (-psll / 20) + 1e-9
             for band in (None, (fj * 0.97, fj * 1.03), (float(p0["f"][max(0, j - 2)]), fj)):
-                kw = dict(win="kaiser", psll=psll, scheduler=sched, Jdes=30, Kdes=10, order=0)
+                kw = dict(win="kaiser", psll=psll, scheduler=sched, **pkw)
                 if band is not None:
                     kw["band"] = band
                 r = SpectrumAnalyzer(x, fs, **kw).compute()
